@@ -787,3 +787,45 @@ Example C12_dist_sa_restriction_nonvacuous :
   | None => False
   end.
 Proof. vm_compute. repeat split; reflexivity. Qed.
+
+(* C12-E, ONE run-time condition on math::inverse (InverseTwoSided.v, InverseTwoSidedUses.v).  Over a field a right inverse of
+   a b x b block is a left inverse (C16_inverse_two_sided), so "math::inverse also succeeds on its own result" is redundant:
+   the only hypothesis about the filtered diagonal D_i that remains is the run-time condition of the C++ -- math::inverse passed
+   its assertion on D_i.  SUPERSEDES C12_nc_dist_sa_smooth_every_partition_BlockQc (which is kept): the hypothesis
+   sinv (sinv D_i) <> 0  is dropped. *)
+From Amgcl Require Import InverseTwoSidedUses OneInverseExamples.
+
+Theorem C12_nc_dist_sa_smooth_every_partition_BlockQc_one_inverse (b : nat) (junk eps2 omega : BlockS QcS b)
+  (A Pt : crs (BlockS QcS b)) (parts cparts : list nat) :
+  psum parts = nrows A -> ncols A = nrows A -> wf A = true ->
+  length parts = length cparts -> psum parts = nrows Pt ->
+  forall i j, i < nrows A ->
+    diag_count i (nth i (rows A) []) = 1 ->
+    sinv (sa_D A (conn_flags _ junk A eps2) i) <> s0 ->
+    mget (assemble (dist_sa_smooth junk eps2 omega (Dist.split A parts parts) (Dist.split Pt parts cparts))) i j
+    = sa_formula omega A (conn_flags _ junk A eps2) Pt i j.
+Proof. exact (nc_dist_sa_smooth_every_partition_BlockQc_one_inverse b junk eps2 omega A Pt parts cparts). Qed.
+Print Assumptions C12_nc_dist_sa_smooth_every_partition_BlockQc_one_inverse.
+
+(* non-vacuity (OneInverseExamples.v), the 3 x 3-block analogue of the witness of C12_nc_dist_sa_nonvacuous on the ranks
+   [2; 0; 1] (rank 1 empty):  A = [X a c; . X .; . . X],  P_tent = I,  omega = 1/2,  eps_strong = 0, where X is the NON-SYMMETRIC
+   block [[0,2,1],[1,1,0],[3,0,1]] of C16_inverse_two_sided_nonvacuous: X_00 = 0 and the pivot search of column 0 selects row 2,
+   so math::inverse exchanges rows.  The filtered diagonal of row 0 is X, every hypothesis of the theorem above holds with the
+   single condition  inverse(D_0) <> 0,  and the model agrees with the formula on row 0 (computed on both sides): entry (0,1),
+   a LOCAL column, is -(1/2) X^-1 a; entry (0,2), a REMOTE column, is -(1/2) X^-1 c and not -(1/2) c X^-1 *)
+Example C12_nc_dist_sa_one_inverse_nonvacuous :
+  (Inverse.find_pivot 3 (blk_list oi_X) (seq 0 3) 0 = 2 /\ seqb (sadj oi_X) oi_X = false /\ sinv oi_X <> s0) /\
+  psum oi_parts = nrows oi_A /\ ncols oi_A = nrows oi_A /\ wf oi_A = true /\
+  length oi_parts = length oi_parts /\ psum oi_parts = nrows oi_Pt /\ 0 < nrows oi_A /\
+  diag_count 0 (nth 0 (rows oi_A) []) = 1 /\
+  sa_D oi_A (conn_flags _ oi_0 oi_A oi_0) 0 = oi_X /\
+  Inverse.find_pivot 3 (blk_list (sa_D oi_A (conn_flags _ oi_0 oi_A oi_0) 0)) (seq 0 3) 0 = 2 /\
+  sinv (sa_D oi_A (conn_flags _ oi_0 oi_A oi_0) 0) <> s0 /\
+  forallb (fun j => seqb (mget (assemble (dist_sa_smooth oi_0 oi_0 oi_omega (Dist.split oi_A oi_parts oi_parts)
+                                                         (Dist.split oi_Pt oi_parts oi_parts))) 0 j)
+                         (sa_formula oi_omega oi_A (conn_flags _ oi_0 oi_A oi_0) oi_Pt 0 j)) [0; 1; 2] = true /\
+  seqb (mget (assemble (dist_sa_smooth oi_0 oi_0 oi_omega (Dist.split oi_A oi_parts oi_parts) (Dist.split oi_Pt oi_parts oi_parts))) 0 1)
+       (s0 - oi_omega * (sinv oi_X * oi_a))%S = true /\
+  seqb (mget (assemble (dist_sa_smooth oi_0 oi_0 oi_omega (Dist.split oi_A oi_parts oi_parts) (Dist.split oi_Pt oi_parts oi_parts))) 0 2)
+       (s0 - oi_omega * (oi_c * sinv oi_X))%S = false.
+Proof. exact (conj oi_X_row_swap_nonsymmetric oi_dist_sa_one_inverse_nonvacuous). Qed.
